@@ -52,10 +52,15 @@ def nodupNat : List Nat → Bool
   | [] => true
   | x :: xs => !xs.contains x && nodupNat xs
 
-/-- C01's invariant on the model. -/
+/-- C01's invariant on the model (a state between two calls: nothing is in flight). -/
 def Forest.wf (f : Forest) : Bool :=
   f.roots.all Tree.okRoot && nodupNat f.ids && f.roots.all Tree.shapeOk &&
-    f.ids.all (fun i => decide (i < f.nextId)) && !f.aliased
+    f.ids.all (fun i => decide (i < f.nextId)) && !f.aliased && f.pool.isEmpty
+
+/-- the part of the invariant that is about the representation only (no beliefs): node ids are
+distinct and below the counter, payload keys are well-shaped, nothing is in flight. -/
+def Forest.repOk (f : Forest) : Bool :=
+  nodupNat f.ids && f.roots.all Tree.shapeOk && f.ids.all (fun i => decide (i < f.nextId)) && f.pool.isEmpty
 
 /-! ### Admissibility -/
 
@@ -168,5 +173,10 @@ def Admissible (cfg : Cfg) (f : Forest) (notifyOn : Bool) (op : Op) : Bool :=
 /-- the step used by driver and theorems: inadmissible-by-divergence calls have no after-state. -/
 def stepA (cfg : Cfg) (f : Forest) (notifyOn : Bool) (op : Op) : Res :=
   if divergent f op then ⟨f, .diverges⟩ else stepN cfg f notifyOn op
+
+/-- a history: calls with the state of `notify_on_change` they run under. -/
+def runHist (cfg : Cfg) (f : Forest) : List (Bool × Op) → Forest
+  | [] => f
+  | (n, op) :: rest => runHist cfg (stepA cfg f n op).forest rest
 
 end Pg.Sym
